@@ -148,7 +148,9 @@ def form (now : Int) : Cmd → TxForm
   | get k => ⟨false, none, .bytes none, pan, decGet, k⟩
   | set k v keep => ⟨true, some (.str []), .unit, pan, decSet k v keep, k⟩
   | setXX k v keep => ⟨true, none, .bool false, pan, decSetXX k v keep, k⟩
-  | getSet k v => ⟨true, some (.str []), .unit, pan, decGetSet k v, k⟩
+  -- GETSET is not literally a `keyTx` (see `getSet_spec`); this form has the same `spec`: on a missing
+  -- key the reply is nil and the key is created with the new value
+  | getSet k v => ⟨true, some .strNil, .unit, pan, decGetSet k v, k⟩
   | append k v => ⟨true, some (.str []), .unit, pan, decAppend k v, k⟩
   | strLen k => ⟨false, none, .int 0, pan, decStrRead fun v => .int (DsStr.len v), k⟩
   | getRange k a b => ⟨false, none, .bytes none, pan, decStrRead fun v => .bytes (DsStr.getRange v a b), k⟩
@@ -207,12 +209,13 @@ def WF : Cmd → Prop
   | raw f => f.OK
   | _ => True
 
-theorem run_eq (c : Cmd) (now : Int) (hc : c.WF) (s : MState) : c.run s now = (c.form now).run s now := by
+theorem run_eq (c : Cmd) (now : Int) (hc : c.WF) (hg : ∀ k v, c ≠ getSet k v) (s : MState) :
+    c.run s now = (c.form now).run s now := by
   cases c with
   | get k => exact get_eq s now k
   | set k v keep => exact set_eq s now k v keep
   | setXX k v keep => exact setXX_eq s now k v keep
-  | getSet k v => exact getSet_eq s now k v
+  | getSet k v => exact absurd rfl (hg k v)
   | append k v => exact append_eq s now k v
   | strLen k => exact strLen_eq s now k
   | getRange k a b => exact getRange_eq s now k a b
@@ -291,7 +294,7 @@ theorem ok (c : Cmd) (now : Int) (hc : c.WF) : (c.form now).OK := by
     obtain ⟨rfl, rfl, _, _⟩ := hx
     exact ⟨(fun w hw => by cases hw; exact good_str _), (fun e he => by cases keep <;> simp at he; subst he; decide)⟩
   | getSet k v =>
-    refine ⟨(fun h => nomatch h), (fun w h => by cases h; exact good_str []), fun w e _ _ => ?_⟩
+    refine ⟨(fun h => nomatch h), (fun w h => by cases h; exact good_strNil), fun w e _ _ => ?_⟩
     show (decGetSet k v w e).GoodA
     unfold decGetSet
     apply goodA_strWrite
@@ -409,10 +412,62 @@ theorem ok (c : Cmd) (now : Int) (hc : c.WF) : (c.form now).OK := by
   | zread f d k => exact ⟨fun _ => rfl, (fun _ h => nomatch h), (fun v _ _ _ => by cases v <;> trivial)⟩
   | raw f => exact hc
 
+/-- GETSET against the specification of its form -/
+theorem getSet_spec {s : MState} {t now : Int} (h : StoreInvX s none t) (ht : t ≤ now) (k v : Bytes) :
+    TxSpec s t now k ((form now (getSet k v)).spec (lookup s now k)) (Api.getSet s now k v) := by
+  rw [getSet_eq]
+  have ks := writeKey_spec h ht k none (fun _ hc => nomatch hc)
+  have hxx := keyTx_spec h ht true none (.bytes none) (fun s1 => (s1, .panic)) (decGetSet k v) k
+    (fun c => nomatch c) (fun _ hc => nomatch hc) ((ok (getSet k v) now trivial).decGood)
+  generalize writeKey s now k none = r at ks ⊢
+  obtain ⟨s1, okk⟩ := r
+  cases hL : lookup s now k with
+  | some c =>
+    obtain ⟨w, e⟩ := c
+    have hok := (ks.hit w e hL).1
+    simp only at hok
+    subst hok
+    simp only [Bool.not_true, Bool.false_eq_true, if_false]
+    rw [hL] at hxx
+    exact hxx
+  | none =>
+    obtain ⟨hok, hl⟩ := ks.miss hL rfl
+    simp only at hok hl
+    subst hok
+    simp only [Bool.not_false, if_true]
+    have kinv : StoreInvX s1 none t := ks.inv
+    have kother : ∀ t', t ≤ t' → ∀ k', k' ≠ k → lookup s1 t' k' = lookup s t' k' := ks.other
+    have kp : s1.pebble = s.pebble := ks.peb
+    have kf : s1.failSet = s.failSet := ks.fail
+    have i2 : StoreInvX (newKeyWith s1 k none (.str [])) none t :=
+      inv_newKeyWith kinv k none (fun _ hc => nomatch hc) (good_str [])
+    obtain ⟨n1, n2, _⟩ := newRec_facts s1 none (.str [])
+    have hm2 : AList.get? (newKeyWith s1 k none (.str [])).index k = some (newRec s1 none (.str [])) := by
+      rw [get?_newKeyWith]; simp
+    obtain ⟨a1, a2, a3, _, a5⟩ := runAct_spec i2 hm2 n1
+      (.put (some (.str v)) (some 0) [Api.opSet k v false] (.bytes none))
+      ⟨(fun w hw => by cases hw; exact good_str _), (fun e he => by cases he; decide)⟩
+    have fl := newKeyWith_fields s1 k none (.str [])
+    refine ⟨a1, a2.trans (fl.1.trans kp), a3.trans (fl.2.trans kf), rfl, ?_⟩
+    intro t' ht' k'
+    have := a5 t' ht' k'
+    simp only [Act.eff, Option.getD_some] at this
+    refine this.trans ?_
+    simp only [TxForm.spec, txSpec, form, decGetSet, decStrWrite, Act.eff, Option.getD_some, applyEff]
+    by_cases hk : k' = k
+    · simp [hk]
+    · simp only [hk, if_false]
+      rw [lookup_newKeyWith kinv ht']
+      simp only [hk, if_false]
+      exact kother t' ht' k' hk
+
 theorem spec_run (c : Cmd) {s : MState} {t now : Int} (hc : c.WF) (h : StoreInvX s none t) (ht : t ≤ now) :
     TxSpec s t now (c.form now).key ((c.form now).spec (lookup s now (c.form now).key)) (c.run s now) := by
-  rw [run_eq c now hc s]
-  exact (c.form now).txspec (c.ok now hc) h ht
+  by_cases hg : ∃ k v, c = getSet k v
+  · obtain ⟨k, v, rfl⟩ := hg
+    exact getSet_spec h ht k v
+  · rw [run_eq c now hc (fun k v e => hg ⟨k, v, e⟩) s]
+    exact (c.form now).txspec (c.ok now hc) h ht
 
 /-- B: every covered command preserves the storage invariant -/
 theorem inv (c : Cmd) {s : MState} {t now : Int} (hc : c.WF) (h : StoreInvX s none t) (ht : t ≤ now) :
